@@ -60,6 +60,16 @@ class Func(object):
         self._pdom = None
         self._paths = {}
         self._uses = None
+        # C parameter position (1-based) of every LLVM argument: a by-value complex is coerced to two doubles / one <2 x float>
+        self.cpos = []
+        pos = 0; k = 0; n = len(self.params)
+        while k < n:
+            pos += 1
+            pk = self.params[k]
+            if pk["name"] == "" and pk["ty"] == "double" and k + 1 < n and self.params[k + 1]["name"] == "" and self.params[k + 1]["ty"] == "double":
+                self.cpos += [pos, pos]; k += 2
+            else:
+                self.cpos.append(pos); k += 1
 
     def pname(self, k):
         return self.params[k]["name"] if k < len(self.params) else "?"
@@ -69,6 +79,22 @@ class Func(object):
             if p["name"] == name:
                 return k
         return None
+
+    def otype(self, o):
+        """LLVM type string of an operand (None if unknown)"""
+        if o[0] == "v":
+            return self.inst[o[1]].ty
+        if o[0] == "a":
+            return self.params[o[1]]["ty"] if o[1] < len(self.params) else None
+        if o[0] in ("g", "s", "fn", "null"):
+            return "ptr*"
+        if o[0] == "ce":
+            return "ptr*"
+        return None
+
+    def is_ptr(self, o):
+        t = self.otype(o)
+        return t is not None and t.endswith("*")
 
     def insts(self):
         for b in self.blocks:
@@ -146,6 +172,39 @@ class Func(object):
             return a.pos <= b.pos
         return a.bb.id in self.dom()[b.bb.id]
 
+    def pdom(self):
+        """post-dominator sets per block id (virtual exit = every block without successors)"""
+        if self._pdom is None:
+            class V(object):
+                pass
+            exitb = V(); exitb.id = -1
+            exits = [b for b in self.blocks if not b.succ]
+            preds = {b.id: list(b.succ) for b in self.blocks}
+            for b in exits:
+                preds[b.id] = [exitb]
+            preds[-1] = []
+            succs = {b.id: list(b.pred) for b in self.blocks}
+            succs[-1] = exits
+            allb = list(self.blocks) + [exitb]
+            self._pdom = _dominators(allb, exitb, lambda b: preds[b.id], lambda b: succs[b.id])
+        return self._pdom
+
+    def control_deps(self):
+        """dict block id -> set of (branch block id, successor id): the edges the block is immediately control dependent on"""
+        if getattr(self, "_cd", None) is None:
+            pd = self.pdom()
+            cd = {b.id: set() for b in self.blocks}
+            for a in self.blocks:
+                if len(a.succ) < 2:
+                    continue
+                for s in a.succ:
+                    # nodes that post-dominate s but do not strictly post-dominate a
+                    for x in self.blocks:
+                        if x.id in pd[s.id] and not (x.id in pd[a.id] and x.id != a.id):
+                            cd[x.id].add((a.id, s.id))
+            self._cd = cd
+        return self._cd
+
     def loops(self):
         """natural loops: list of (header block id, set of body block ids)"""
         dom = self.dom()
@@ -169,16 +228,29 @@ class Func(object):
         """Set of access paths of a value. A path is a tuple (base, step, ...).
         base: ('A',k) argument | ('G',name) global address | ('L',id) alloca address |
         ('C',callee,id) call result | ('K',c) int constant | ('N',) null | ('?',desc).
-        steps: ('f',struct,field) | ('i',) index | ('*',) load."""
+        steps: ('f',struct,field) | ('i',) index | ('*',) load.
+        Pointer phi cycles (p = phi(base, p + k)) are solved as a least fixpoint."""
         key = _okey(operand)
         if key in self._paths:
-            r = self._paths[key]
-            return r if r is not None else frozenset([(("?", "cycle"),)])
-        self._paths[key] = None
+            return self._paths[key]
+        if not hasattr(self, "_inprog"):
+            self._inprog = set(); self._hitcycle = False
+        if key in self._inprog:
+            self._hitcycle = True
+            return frozenset()
+        self._inprog.add(key)
+        outer_flag = self._hitcycle
+        self._hitcycle = False
         r = self._paths_uncached(operand, depth)
         if len(r) > 24:
             r = frozenset(list(sorted(r, key=repr))[:24]) | frozenset([(("?", "many"),)])
-        self._paths[key] = r
+        self._inprog.discard(key)
+        if not self._hitcycle or not self._inprog:
+            # complete (no open cycle below us, or we are the outermost frame)
+            self._paths[key] = r
+        self._hitcycle = self._hitcycle or outer_flag
+        if not self._inprog:
+            self._hitcycle = False
         return r
 
     def _paths_uncached(self, o, depth):
@@ -224,8 +296,7 @@ class Func(object):
                 if x[0] == "undef":
                     continue
                 out |= self.paths(x, depth + 1)
-            out.discard((("?", "cycle"),))
-            return frozenset(out) if out else frozenset([(("?", "phi"),)])
+            return frozenset(out)
         if op == "call":
             return frozenset([(("C", ins.callee or "", ins.i),)])
         if op in ("sext", "zext", "trunc"):
